@@ -39,7 +39,7 @@ ASSUMPTIONS = [
     "JSON lines store a grouped record as its flat view (name + flat field list), which is what the JSON adapter documents",
 ]
 SHARDS = {"quick": 8, "thorough": 16}
-BUDGET_S = {"quick": 200, "thorough": 1200}
+BUDGET_S = {"quick": 200, "thorough": 2400}
 ANCHORS = ["flow.record.packer:RecordPacker.register", "flow.record.packer:RecordPacker.pack_obj", "flow.record.stream:RecordStreamWriter.on_new_descriptor",
            "flow.record.jsonpacker:JsonRecordPacker.register", "flow.record.adapter.jsonfile:JsonfileWriter.packer_on_new_descriptor"]
 
@@ -157,21 +157,21 @@ def generate(ctx):
                 idx += 1
     ctx.exhaustive = True
     rng = random.Random(subseed("c03", ctx.seed, "long", ctx.shard))
-    for i in range(ctx.scale(1500, 12000)):  # one step beyond the enumerated length, sampled
+    for i in range(ctx.scale(1500, 30000)):  # one step beyond the enumerated length, sampled
         yield {"k": "hist", "fmt": rng.choice(["bin", "json"]), "h": [rng.randrange(NMAKERS) for _ in range(maxlen + 1)]}
-    for i in range(ctx.scale(12, 150)):
+    for i in range(ctx.scale(12, 400)):
         n = rng.randint(20, 200)
         yield {"k": "hist", "fmt": rng.choice(["bin", "json"]), "h": [rng.randrange(NMAKERS) for _ in range(n)]}
-    for i in range(ctx.scale(40, 600)):
+    for i in range(ctx.scale(40, 2000)):
         nw = rng.choice([2, 3])
         n = rng.randint(2, 14)
         yield {"k": "multi", "fmt": rng.choice(["bin", "json"]), "nw": nw, "ops": [[rng.randrange(nw), rng.randrange(NMAKERS)] for _ in range(n)]}
     # descriptor turnover: many equal descriptor objects alive at once, released, then many brand-new types (their
     # descriptor objects take over freed addresses) - all through one long-lived writer
-    for i in range(ctx.scale(2, 12)):
+    for i in range(ctx.scale(2, 30)):
         yield {"k": "turnover", "fmt": ("bin", "json")[i % 2], "n": rng.choice([60, 150, 300]), "s": subseed("c03", ctx.seed, "turnover", ctx.shard, i)}
     # several writers appending to one shared output, interleaved (sampled, and w1:a w2:b w1:a for every pair of makers)
-    for i in range(ctx.scale(60, 900)):
+    for i in range(ctx.scale(60, 3000)):
         nw = rng.choice([2, 3])
         n = rng.randint(3, 10)
         yield {"k": "multi", "fmt": "bin", "shared": 1, "nw": nw, "ops": [[rng.randrange(nw), rng.randrange(NMAKERS)] for _ in range(n)]}
